@@ -5,7 +5,7 @@ from hypothesis import strategies as st
 from ..core import Clause, Discard, Violation, call, require
 from ..oracles import stft_ref
 from ..strategies import (log_floor_configs, with_config, bank_specs, build_bank, build_stft, build_window, gabor_degenerate,
-                          gammatone_degenerate, make_signal, signal_specs, stft_specs)
+                          gammatone_degenerate, make_signal, signal_specs, stft_specs, SIGNAL_KINDS, EXTREME_KINDS)
 
 PROPERTY = "C02"
 LEVEL = "exploration"
@@ -66,6 +66,8 @@ def check_definition(case):
     D = stft_ref.documented_dft_size(L, spec["pad"])
     x = make_signal(case["sig"])
     N = len(x)
+    if case["sig"]["kind"] == "huge" and spec["use_power"]:
+        raise Discard()  # squares of samples of 2**600 are not representable: the statement's value is not a double
     if case.get("other"):
         # another computer of the same class (different configuration) is built and used first
         ospec = case["other"]
@@ -101,6 +103,8 @@ def check_definition(case):
         x, bank, win, L, S, D, style, spec["kaldi_shift"] and style == "centered",
         spec["use_log"], spec["use_power"], spec["include_energy"], config.LOG_FLOOR_VALUE,
     )
+    if not np.all(np.isfinite(ref)):
+        raise Discard()
     kal = spec["kaldi_shift"] and style == "centered"
     nat = stft_ref.natural_rows(x, win, L, S, D, style, kal, spec["use_power"])
     floor_note = ""
@@ -167,7 +171,7 @@ def _cases(draw, rates=(1000,), max_len=64):
     )
     if draw(st.integers(0, 24)) == 0:
         n = draw(st.sampled_from([4097, 10000, 16385, 20011]))  # many frames: block-wise implementations differ only here
-    sig = draw(signal_specs(st.just(n)))
+    sig = draw(signal_specs(st.just(n), SIGNAL_KINDS + EXTREME_KINDS))
     prior = draw(st.one_of(st.none(), st.none(), st.fixed_dictionaries({
         "sig": signal_specs(st.integers(0, 3 * L)), "chunked": st.booleans()})))
     other = draw(st.one_of(st.none(), st.none(), st.none(), stft_specs(rates=rates, max_len=16)))
